@@ -310,7 +310,9 @@ def rule_small_scope(src, rep, it, counts):
     strings += ["\x1b[38;5;196mred\x1b[0m", "\x1b[m", "\x1b[01;34mdir\x1b[0m/\n", "\x1b[2J\x1b[1;1Hx", "a\x1b[1;31;44mb\x1b[39;49mc\x1b[0m",
                 "\x1b[?25lq", "\x1b]0;title\x07z", "\x1b[1m\x1b[1m\x1b[0m", "\x1b[3" + "1" * 30 + "mX"]
     # truncated / look-alike pieces next to sequences that force the fallback path (unsupported SGR codes) and next to newlines
-    pieces = ["", "a", "\x9b", "\x9b1", "\x9b1;", "\x1b", "\x1b[", "\x1b[1", "\x1b[1;", "\x1bM", "\n", "\x1bMfoo\nbar"]
+    # ... and ordinary text that means something to str formatting (an error message built from the input must not choke on it)
+    pieces = ["", "a", "\x9b", "\x9b1", "\x9b1;", "\x1b", "\x1b[", "\x1b[1", "\x1b[1;", "\x1bM", "\n", "\x1bMfoo\nbar",
+              "50% done ", "%s", "%(name)s", "{} {0} {x}", "\\x1b["]
     forcing = ["\x1b[20mX", "\x1b[90mgrey\x1b[0m", "\x1b[1;mY", "\x1b[31mZ\x1b[39m", "\x1b[31\nrest"]
     for p_ in pieces:
         for q_ in forcing:
